@@ -32,7 +32,21 @@ func getExtensionFieldInfo(xt protoreflect.ExtensionType) *extensionFieldInfo {
 	// extension types, constructed for the duration of a user request) to the
 	// heap forever, causing memory usage of the cache to grow unbounded.
 	// See discussion in https://github.com/golang/protobuf/issues/1521.
-	return makeExtensionFieldInfo(xt.TypeDescriptor())
+	xd := xt.TypeDescriptor()
+	e := makeExtensionFieldInfo(xd)
+	// The validator must know what the field holds: values of this extension
+	// are unmarshaled (and possibly rejected) with the field's own type, so
+	// it cannot be skipped like an unknown field. There is no MessageInfo
+	// for message values, which makes the validator answer ValidationUnknown.
+	switch xd.Kind() {
+	case protoreflect.MessageKind:
+		e.validation.typ = validationTypeMessage
+	case protoreflect.GroupKind:
+		e.validation.typ = validationTypeGroup
+	default:
+		e.validation = newValidationInfo(xd, nil)
+	}
+	return e
 }
 
 func makeExtensionFieldInfo(xd protoreflect.ExtensionDescriptor) *extensionFieldInfo {
